@@ -372,6 +372,16 @@ func (c *FnCtx) evalConversion(x *ast.CallExpr, to types.Type, st *State) string
 			if eb, ok := sl.Elem().Underlying().(*types.Basic); ok && eb.Kind() == types.Int32 {
 				ln = "(runeCount " + v + ")"
 				c.declareFun("runeAt", []string{sString, sInt}, sInt)
+				c.runeRows = append(c.runeRows, [3]string{v, row, ln})
+				if c.unroll > 0 {
+					// counterexample search only: a short, valid UTF-8 string's byte length is the sum of its rune widths
+					var sum []string
+					for i := 0; i < 4; i++ {
+						sum = append(sum, fmt.Sprintf("(ite (> %s %d) (runeLen (select %s %d)) 0)", ln, i, row, i))
+					}
+					st.addFact(implies("(<= "+ln+" 4)", eq("(blen "+v+")", "(+ "+strings.Join(sum, " ")+")")))
+					st.addFact("(forall ((i Int)) (=> (and (<= 0 i) (< i " + ln + ")) (> (runeLen (select " + row + " i)) 0)))")
+				}
 				st.addFact(and("(<= 0 "+ln+")", "(<= "+ln+" (blen "+v+"))", "(= (= "+ln+" 0) (= "+v+" \"\"))",
 					implies("(> "+ln+" 0)", eq(sel(row, "0"), "(runeAt "+v+" 0)")),
 					// bridge to the SMT string for an ASCII first character (lets models be replayed)
